@@ -39,7 +39,7 @@ type c01Case struct {
 	Traj    []int     `json:"traj,omitempty"` // scripted estimates after the 1st, 2nd ... window (limiter subjects)
 	Workers [][]c01Op `json:"workers"`
 	Order   []int     `json:"order"`
-	Yields  []uint8   `json:"yields"`
+	Yields  yieldList `json:"yields"`
 }
 
 func genC01C(par bool) func(t *rapid.T) c01Case {
@@ -80,7 +80,7 @@ func genC01C(par bool) func(t *rapid.T) c01Case {
 			c.Workers = append(c.Workers, rapid.SliceOfN(op, lo, maxOps).Draw(t, "prog"))
 		}
 		c.Order = rapid.Permutation(seq(nw)).Draw(t, "order")
-		c.Yields = rapid.SliceOfN(rapid.SampledFrom([]uint8{0, 0, 1, 1, 2, 3, 5}), 0, 80).Draw(t, "yields")
+		c.Yields = yieldList(rapid.SliceOfN(rapid.SampledFrom([]uint8{0, 0, 1, 1, 2, 3, 5}), 0, 80).Draw(t, "yields"))
 		return c
 	}
 }
